@@ -1,7 +1,8 @@
 """Independent free-form Fortran tokenizer and normaliser.
 
 Written from the standard's lexical rules; shares no code with fparser.
-Token classes: W word (name or keyword), N numeric literal, S character
+Token classes: W word (name or keyword), K kind prefix glued to the character
+literal that follows (kind_'text'), N numeric literal, S character
 literal (quotes included), O dotted operator / logical literal, P punctuation
 or operator, C comment (from '!' to end of line).
 """
@@ -68,13 +69,47 @@ def lex(text, comments=True):
             m2 = re.match(r"\d+(?=\.[A-Za-z]+\.)", text[i:])
             if m2 and not re.match(r"\d+\.[eEdDqQ][+-]?\d", text[i:]):
                 tok = m2.group(0)
+            if tok.endswith("_") is False and i + len(tok) < n and text[i + len(tok)] == "_" and i + len(tok) + 1 < n \
+                    and text[i + len(tok) + 1] in "'\"":
+                k = read_string(text, i + len(tok) + 1)
+                out.append((text[i:k], "S"))
+                i = k
+                continue
             out.append((tok, "N"))
             i += len(tok)
             continue
         m = _WORD.match(text, i)
         if m:
-            out.append((m.group(0), "W"))
-            i = m.end()
+            w = m.group(0)
+            j = m.end()
+            if j < n and text[j] in "'\"":
+                if len(w) == 1 and w.lower() in "boz":
+                    # BOZ literal constant: one token
+                    k = read_string(text, j)
+                    out.append((text[i:k], "N"))
+                    i = k
+                    continue
+                if w.endswith("_"):
+                    # kind-prefixed character literal: prefix (class K, glued to the literal) + literal
+                    k = read_string(text, j)
+                    out.append((w, "K"))
+                    out.append((text[j:k], "S"))
+                    i = k
+                    continue
+            out.append((w, "W"))
+            i = j
+            if w.lower() in ("operator", "assignment"):
+                # generic-spec: OPERATOR ( defined-operator ) - the operator is one token
+                k = i
+                while k < n and text[k] in " \t":
+                    k += 1
+                if k < n and text[k] == "(":
+                    e = text.find(")", k)
+                    if e != -1 and text[k + 1:e].strip():
+                        out.append(("(", "P"))
+                        out.append((text[k + 1:e].strip(), "O" if text[k + 1:e].strip().startswith(".") else "P"))
+                        out.append((")", "P"))
+                        i = e + 1
             continue
         two = text[i : i + 2]
         if two in _OPS2:
